@@ -107,6 +107,11 @@ def a_histories(z):
         rb = random.Random(99).randbytes(700)
         A['z-window9-context'] = dict(hs=Z_EXT9, steps=[('raw', F(1, b'go')), ('await_frames', 2), ('eof',)],
                                       policy={'text': [['send_binary', rb], ['send_binary', rb]]})
+        # the upgrade is rejected because of the extension parameters the server picked: the next server picks good ones
+        A['z-bad-params-rejected'] = dict(hs={'extra': [('Sec-WebSocket-Extensions', 'permessage-deflate; server_max_window_bits=7')]},
+                                          steps=[('raw', F(1, b'never')), ('eof',)])
+        A['z-bad-params-rejected-2'] = dict(hs={'extra': [('Sec-WebSocket-Extensions', 'permessage-deflate; client_max_window_bits=16')]},
+                                            steps=[('eof',)])
         A['z-garbage'] = dict(steps=[('raw', F(1, m1, rsv=4) + F(2, b'\xff\xff\xff\xff', rsv=4)), ('eof',)])
         # both sides reset their context after every message: "nothing a new connection could inherit" - except a zlib
         # object that the previous connection left in its error state
@@ -224,6 +229,7 @@ def observe_b(run, w, z):
     evs = [(H.norm(e), round(t - t0, 9)) for e, t in zip(run.events, run.times) if e.name != 'poll']
     frames = []
     key = None
+    request = []
     if w.conns:
         nreq = 2 if bytes(w.conns[0].tx).startswith(b'CONNECT ') else 1
         reqs, fr, residue, errors = H.client_frames(w.conns[0], nreq)
@@ -231,7 +237,10 @@ def observe_b(run, w, z):
             fr, residue, errors = [], b'', []        # the tunnel never came up: no WebSocket traffic to compare
         frames = [H.frame_sig(fr), residue, errors]
         key = refhttp.request_key(bytes(w.conns[0].tx))
-    return dict(events=evs, end=run.end, frames=frames, npolls=run.names.count('poll')), key
+        # the request itself, apart from the value of the key: same lines, same order, nothing twice
+        import re
+        request = [re.sub(rb'(?i)(sec-websocket-key:)[^\r\n]*', rb'\1 <key>', r_) for r_ in reqs]
+    return dict(events=evs, end=run.end, frames=frames, npolls=run.names.count('poll'), request=request), key
 
 
 def run_one(ws, h, z, seg=None, abandon=None, keep_open=False, stale=None, via_iter=False):
@@ -247,6 +256,9 @@ def run_one(ws, h, z, seg=None, abandon=None, keep_open=False, stale=None, via_i
         run.end = 'stop'
         with simnet.Installed(w):
             run.ws = ws if ws is not None else env.WebSocket('ws://example.com/', compress=bool(z), proxies=PROXIES)
+            if ws is None:
+                for h_, v_ in ((b'X-Verif-Object', b'c17'), (b'Authorization', b'Bearer t0k3n')):
+                    run.ws.add_header(h_, v_)
             for act in h.get('after', ()):
                 H.app_call(run, run.ws, act[0], *act[1:])
         return run, w
@@ -286,7 +298,10 @@ def run_one(ws, h, z, seg=None, abandon=None, keep_open=False, stale=None, via_i
             if idx == point or (smode == 'step' and idx > point):
                 finalise()
             inner(ws_, ev, idx, run_)
+    # every object of this check carries custom headers (add_header): they are part of every request it sends, nothing
+    # else of the request is
     run = H.drive(w, ws=ws, ws_kwargs=dict(compress=bool(z), proxies=PROXIES), connect_kwargs=ckw_of(h),
+                  headers=[(b'X-Verif-Object', b'c17'), (b'Authorization', b'Bearer t0k3n')],
                   policy=policy, stop_after=abandon, pre_iter=pre_iter, via_iter=via_iter)
     if stale is not None:
         run.stale_finalised = bool(done) or bool(stepped)
@@ -495,6 +510,8 @@ def via_persist(chain, A, hb, z, seg, acc):
             return Ex.n >= len(hist)
 
     ws = env.WebSocket('ws://example.com/', compress=bool(z), proxies=dict(PROXIES))
+    for h_, v_ in ((b'X-Verif-Object', b'c17'), (b'Authorization', b'Bearer t0k3n')):
+        ws.add_header(h_, v_)
     real_connect = ws.connect
     runs = []
 
